@@ -192,6 +192,10 @@ func runC02(c *eng.Ctx) {
 	c.Floor(8)
 
 	// ---- R02.4 leader side
+	c.Rule("R02.8", "K5")
+	ruleEpochCacheShapes(c)
+	c.Floor(9)
+
 	c.Rule("R02.4", "K1")
 	if fn := c.Fn("server.(*partition).handleReplicationRequest"); fn != nil {
 		rq := eng.CallsIn(fn, "server.replicator.request")
